@@ -20,6 +20,7 @@ ASSUMPTIONS = ['positional-only parameters are not generated (klepto predates th
                'partials whose construction is itself always-failing are in the domain: every call through them is invalid']
 
 N = {'quick': 4000, 'thorough': 60000}
+FUZZ_SECONDS = 180      # thorough tier: coverage-guided campaign over the same strategy and oracle (tools/fuzz.py)
 SHARDS = {'quick': 4, 'thorough': 16}
 
 FOREIGN = ['zz', 'yy']
